@@ -21,6 +21,16 @@ type tdnStep struct {
 	kind string
 	id   string
 	sp   *subSpec
+	dup  bool
+}
+
+var clientFaultKinds = map[string]string{
+	"start-without-payload":     "client.start-without-payload",
+	"vanish":                    "client.vanish(reset)",
+	"close-without-close-frame": "client.close-without-close-frame",
+	"non-json":                  "client.non-json-message",
+	"binary":                    "client.binary-frame",
+	"unknown-type":              "client.unknown-message-type",
 }
 
 func tdnPolicy(s *sched.Sim) sched.Policy {
@@ -75,8 +85,6 @@ func scenTDN(s *sched.Sim, cfg Config, res *Result) {
 	byAlias := map[string]*subSpec{}
 	scripts := make([][]tdnStep, nConn)
 	var allSpecs []*subSpec
-	faults := map[string]int{}
-	fault := func(k string) { faults[k]++ }
 	for c := 0; c < nConn; c++ {
 		var steps []tdnStep
 		if !s.T.Bool(1, 10) {
@@ -89,26 +97,23 @@ func scenTDN(s *sched.Sim, cfg Config, res *Result) {
 		var ids []string
 		for j := 0; j < k; j++ {
 			sp := &subSpec{conn: c, id: fmt.Sprintf("s%d", j+1), alias: fmt.Sprintf("ev_c%d_s%d", c, j+1)}
+			dup := false
 			if j > 0 && !off["duplicate-start"] && s.T.Bool(1, 4) {
 				sp.id = ids[0]
-				fault("client.duplicate-start-id")
+				dup = true
 			}
 			sp.op = gql.GenOpAliased(s.T, w, w.Union, ast.Subscription, of, 3, 8, sp.alias)
 			sc := &upScript{ack: "ack"}
 			switch s.T.Choose(10) {
 			case 0:
 				sc.ack = "never-ack"
-				fault("upstream.never-ack")
 			case 1:
 				sc.ack = "close-in-handshake"
-				fault("upstream.close-in-handshake")
 			case 2:
 				sc.ack = "refuse-dial"
-				fault("upstream.dial-refused")
 			case 3:
 				if !off["upstream-reset-in-handshake"] {
 					sc.ack = "reset-after-upgrade"
-					fault("upstream.reset-during-handshake")
 				}
 			}
 			n := s.T.Range(0, 4)
@@ -116,13 +121,10 @@ func scenTDN(s *sched.Sim, cfg Config, res *Result) {
 				switch s.T.Choose(8) {
 				case 0:
 					sc.events = append(sc.events, upEvent{"error"})
-					fault("upstream.error-frame")
 				case 1:
 					sc.events = append(sc.events, upEvent{"bad-json"})
-					fault("upstream.not-json")
 				case 2:
 					sc.events = append(sc.events, upEvent{"unknown-type"})
-					fault("upstream.unknown-type")
 				default:
 					sc.events = append(sc.events, upEvent{"event"})
 				}
@@ -132,10 +134,8 @@ func scenTDN(s *sched.Sim, cfg Config, res *Result) {
 				sc.events = append(sc.events, upEvent{"complete"})
 			case 1:
 				sc.events = append(sc.events, upEvent{"close"})
-				fault("upstream.disconnect")
 			case 2:
 				sc.events = append(sc.events, upEvent{"connection-error"})
-				fault("upstream.connection-error")
 			}
 			sp.script = sc
 			byAlias[sp.alias] = sp
@@ -143,9 +143,8 @@ func scenTDN(s *sched.Sim, cfg Config, res *Result) {
 			ids = append(ids, sp.id)
 			if !off["start-without-payload"] && s.T.Bool(1, 8) {
 				steps = append(steps, tdnStep{kind: "start-without-payload", id: sp.id})
-				fault("client.start-without-payload")
 			} else {
-				steps = append(steps, tdnStep{kind: "start", id: sp.id, sp: sp})
+				steps = append(steps, tdnStep{kind: "start", id: sp.id, sp: sp, dup: dup})
 			}
 		}
 		// actions while subscriptions run
@@ -156,7 +155,6 @@ func scenTDN(s *sched.Sim, cfg Config, res *Result) {
 				steps = append(steps, tdnStep{kind: "stop", id: ids[s.T.Choose(len(ids))]})
 			case 2:
 				steps = append(steps, tdnStep{kind: "stop", id: "zz-unknown"})
-				fault("client.stop-unknown-id")
 			case 3:
 				steps = append(steps, tdnStep{kind: "pause"})
 			case 4:
@@ -174,19 +172,14 @@ func scenTDN(s *sched.Sim, cfg Config, res *Result) {
 			steps = append(steps, tdnStep{kind: "close-frame"})
 		case 3:
 			steps = append(steps, tdnStep{kind: "vanish"})
-			fault("client.vanish(reset)")
 		case 4:
 			steps = append(steps, tdnStep{kind: "close-without-close-frame"})
-			fault("client.close-without-close-frame")
 		case 5:
 			steps = append(steps, tdnStep{kind: "non-json"})
-			fault("client.non-json-message")
 		case 6:
 			steps = append(steps, tdnStep{kind: "binary"})
-			fault("client.binary-frame")
 		case 7:
 			steps = append(steps, tdnStep{kind: "unknown-type"})
-			fault("client.unknown-message-type")
 		}
 		scripts[c] = steps
 	}
@@ -230,6 +223,15 @@ func scenTDN(s *sched.Sim, cfg Config, res *Result) {
 			for _, st := range scripts[c] {
 				if cl.conn.IsClosed() {
 					break
+				}
+				if k, ok := clientFaultKinds[st.kind]; ok {
+					env.fire(k)
+				}
+				if st.kind == "stop" && st.id == "zz-unknown" {
+					env.fire("client.stop-unknown-id")
+				}
+				if st.kind == "start" && st.dup {
+					env.fire("client.duplicate-start-id")
 				}
 				switch st.kind {
 				case "init":
@@ -361,7 +363,7 @@ func scenTDN(s *sched.Sim, cfg Config, res *Result) {
 		}
 		res.Violate(prop+"/goroutine-leak:"+leakClass(left), "goroutines started by the gateway for a connection are still alive after everything ended: %v\nhistory: %s", left, hist)
 	}
-	for k, v := range faults {
+	for k, v := range env.fired {
 		for i := 0; i < v; i++ {
 			res.Fault(k)
 		}
